@@ -72,6 +72,11 @@ Inductive stmt :=
 | SCumsum (x b : var)
 | SArrDiv (s : site) (x a b : var)                      (* x = a / b elementwise; shapes agree (s) *)
 | SArrDivSc (x a : var) (e : expr)                      (* x = a / e *)
+| SArrScale (a : var) (e : expr)                        (* a *= e *)
+| SShiftLeft (a : var)                                  (* a[0:-1] = a[1:] *)
+| SColSums (x a : var)                                  (* x = np.sum(a, 0), a 2-D *)
+| SColUpd (s : site) (a : var) (j : expr) (op : binop) (h : option var) (e : expr)
+      (* a[:, j] op= e   or   a[:, j] op= h * e  with h a 1-D array of as many cells as a has rows *)
 | SCall (l : nat) (ts : list target) (f : string) (args : list arg)
 | SSeq (a b : stmt)
 | SIf (l : nat) (c : expr) (a b : stmt)
